@@ -31,6 +31,7 @@ import (
 // ---- in-memory packet connection ----
 
 type memPC struct {
+	onWrite func(b []byte) // harness observer (controlled executions only)
 	mu   sync.Mutex
 	in   [][]byte
 	out  [][]byte
@@ -58,6 +59,9 @@ func (p *memPC) ReadFrom(b []byte) (int, net.Addr, error) {
 func (p *memPC) WriteTo(b []byte, addr net.Addr) (int, error) {
 	if s := verifrt.CurSched(); s != nil {
 		s.Yield(nil, "packet.Write")
+	}
+	if p.onWrite != nil {
+		p.onWrite(b)
 	}
 	p.mu.Lock()
 	defer p.mu.Unlock()
@@ -551,9 +555,23 @@ func c13ConcRun(sc c13Conc) (f *c13Fix, obs []c13Obs, finalModel refModel, state
 		}
 	})
 	if sc.Spam {
+		spamIP := ""
+		if record {
+			for name, pc := range f.pcs {
+				name := name
+				pc.onWrite = func(b []byte) {
+					if s.CurName() == "spam" && spamIP != "" {
+						// an unsolicited announcement leaves now: judged by what the writer has completed / begun at this very moment
+						obs = append(obs, c13Obs{kind: "frame", ip: spamIP, intf: name, writerDoneAtCall: done, writerStartedAtRet: started})
+					}
+				}
+			}
+		}
 		run("spam", func() {
 			for _, adv := range pre {
+				spamIP = VerifAdvIP(adv).String()
 				f.a.VerifGratuitous(adv)
+				spamIP = ""
 			}
 		})
 	}
@@ -615,6 +633,19 @@ func c13ConcCheck(res *verifrt.Result, sc c13Conc, f *c13Fix, obs []c13Obs, stat
 		}
 	}
 	for _, o := range obs {
+		if o.kind == "frame" {
+			// an unsolicited announcement may only leave while some state between "the writer's completed operations" and
+			// "the operations it has begun" has the address held (the loop sends under the read lock: no announcement for an
+			// address leaves after its withdrawal has returned)
+			held := false
+			for j := o.writerDoneAtCall; j <= o.writerStartedAtRet && j < len(states); j++ {
+				held = held || states[j].holders(o.ip) > 0
+			}
+			if !held {
+				viol("C13 conc: unsolicited announcement sent after the withdrawal of the address had returned", fmt.Sprintf("%s on %s, writer had completed %d operations", o.ip, o.intf, o.writerDoneAtCall))
+			}
+			continue
+		}
 		if o.kind != "query" {
 			continue
 		}
